@@ -27,7 +27,7 @@ def programs(thorough, rng):
 def run(tier, seed, replay):
     rep = Report("C09", tier, seed, level="proof")
     thorough = tier == "thorough"
-    ok, info = proof_stage(rep, MODULE, extra_targets=(), thorough=thorough)
+    ok, info = proof_stage(rep, MODULE, extra_targets=(), thorough=thorough, also=("KyroModel.Theorems.C09Manifest",))
     bok, blog, bsecs = cargo_build()
     if not bok:
         rep.violation(rep.write_replay("harness_build.log", blog[-4000:]), no_input=True)
